@@ -103,7 +103,7 @@ static const size_t ARENA_SIZE = 12ULL << 30;
 static const size_t ARENA_LO = 4ULL << 30;  // islands live in [base+4G, base+8G)
 static const size_t ARENA_HI = 8ULL << 30;
 static const uintptr_t ARENA_FIXED = 0x200000000000ULL;
-static const size_t MAX_ANON = 4u << 20;  // growth cap of one anonymous mapping (runaway guard): 4 MiB
+static const size_t MAX_ANON_DEFAULT = 4u << 20;  // growth cap of one anonymous mapping (runaway guard): 4 MiB
 
 static const char *K_NAMES[K_N] = {"malloc", "calloc", "free",   "mmap",   "mmap_file", "mremap", "munmap",
                                    "open",   "fstat",  "close",  "read",   "fopen",     "fwrite", "fclose",
@@ -175,6 +175,7 @@ struct SimState {
   bool inited = false;
 };
 static SimState G;
+static inline size_t max_anon() { return G.w.max_anon > 0 ? (size_t)G.w.max_anon : MAX_ANON_DEFAULT; }
 static const int FD_BASE = 1000;
 // descriptor numbers: the k-th descriptor of a run is FD_BASE+k; with a world in which descriptor 0 is free
 // (the caller closed stdin) the first one is 0, as open(2) hands out the lowest free number
@@ -907,11 +908,11 @@ extern "C" void *__wrap_mmap(void *addr, size_t len, int prot, int flags, int fd
     return MAP_FAILED;
   }
   if (anon) {
-    if (len > MAX_ANON) {
+    if (len > max_anon()) {
       errno = ENOMEM;
       return MAP_FAILED;
     }
-    Island *is = island_new(IS_ANON, len, prot, MAX_ANON + PAGE);
+    Island *is = island_new(IS_ANON, len, prot, max_anon() + PAGE);
     if (!is) {
       errno = ENOMEM;
       return MAP_FAILED;
@@ -997,7 +998,7 @@ extern "C" void *__wrap_mremap(void *old, size_t old_len, size_t new_len, int fl
     errno = EINVAL;
     return MAP_FAILED;
   }
-  if (new_len > MAX_ANON) {  // runaway guard: a real system would run out eventually, too
+  if (new_len > max_anon()) {  // runaway guard: a real system would run out eventually, too
     errno = ENOMEM;
     return MAP_FAILED;
   }
@@ -1032,7 +1033,7 @@ extern "C" void *__wrap_mremap(void *old, size_t old_len, size_t new_len, int fl
   }
   int old_id = is->id;
   int prot = is->prot;
-  Island *ni = island_new(IS_ANON, new_len, prot | PROT_WRITE, MAX_ANON + PAGE);
+  Island *ni = island_new(IS_ANON, new_len, prot | PROT_WRITE, max_anon() + PAGE);
   if (!ni) {
     errno = ENOMEM;
     return MAP_FAILED;
